@@ -74,6 +74,22 @@ def jobs(prop, tier):
                     SS("sync_faults_sim", 3, 40, 60)]
         return [SM("sync_faults"), SM("sync_faults_sc"), SM("sync_faults_late"), SE("sync_faults_edge", 2, rate=0.05),
                 SE("sync_faults_sc_edge", 2, rate=0.05), SE("sync_faults_late_edge", 2, rate=0.05), SS("sync_faults_sim", 3, 800, 80)]
+    if prop == "C13":
+        ent = ["sync_entry_t1", "sync_entry_t2", "sync_entry_t3", "sync_entry_cc", "sync_entry_ss"]
+        if q:
+            return [SE(c + "_edge", 2) for c in ent] + [SE("sync_sc_edge", 2, rate=0.05), SE("sync_3_edge", 3, rate=0.002)]
+        return [SM(c) for c in ent] + [SE(c + "_edge", 2) for c in ent] + [SE("sync_sc_edge", 2, rate=0.5), SE("sync_3_edge", 3, rate=0.03),
+                                                                         SE("sync_basic_edge", 2, rate=0.3)]
+    if prop == "C16":
+        f = dict(dump_module="OrdaSyncProbeDump.tla")
+        if q:
+            return [dict(SE("sync_probe16_edge", 2, rate=0.12), **f), dict(SE("sync_probe16sc_edge", 2, rate=0.2), **f)]
+        return [dict(SE("sync_probe16_edge", 2), **f), dict(SE("sync_probe16sc_edge", 2), **f)]
+    if prop == "C17":
+        f = dict(dump_module="OrdaSyncProbeDump.tla")
+        if q:
+            return [dict(SE("sync_probe17_edge", 2, rate=0.3), **f)]
+        return [dict(SE("sync_probe17_edge", 2), **f)]
     if prop == "C08":
         f = dict(dump_module="OrdaSyncFaultDump.tla")
         if q:
